@@ -459,6 +459,9 @@ class MultiSetCooccurrenceVectorizer(BaseCooccurrenceVectorizer):
             self._coo_sizes = np.array(coo_sizes * average_window, dtype=np.int64)
 
         self._coo_sizes = np.divmod(self._coo_sizes, self.n_threads)[0]
+        # coo_append compacts when one free slot is left and only grows at 95% fill,
+        # so a buffer needs at least 20 slots to never be overrun
+        self._coo_sizes = np.maximum(self._coo_sizes, 20)
 
     def _em_cooccurrence_iteration(self, token_sequences, cooccurrence_matrix):
         # call the numba function to return the new matrix.data
